@@ -1192,20 +1192,16 @@ impl Group {
     }
 
     fn subroots(&self, f: &mut dyn FnMut(&Group)) {
-        if let Some(ref clip) = self.clip_path {
-            f(&clip.root);
-
-            if let Some(ref sub_clip) = clip.clip_path {
-                f(&sub_clip.root);
-            }
+        let mut clip = self.clip_path.as_ref();
+        while let Some(c) = clip {
+            f(&c.root);
+            clip = c.clip_path.as_ref();
         }
 
-        if let Some(ref mask) = self.mask {
-            f(&mask.root);
-
-            if let Some(ref sub_mask) = mask.mask {
-                f(&sub_mask.root);
-            }
+        let mut mask = self.mask.as_ref();
+        while let Some(m) = mask {
+            f(&m.root);
+            mask = m.mask.as_ref();
         }
 
         for filter in &self.filters {
@@ -1729,16 +1725,12 @@ impl Group {
     pub(crate) fn collect_clip_paths(&self, clip_paths: &mut Vec<Arc<ClipPath>>) {
         for node in self.children() {
             if let Node::Group(ref g) = node {
-                if let Some(ref clip) = g.clip_path {
-                    if !clip_paths.iter().any(|other| Arc::ptr_eq(clip, other)) {
-                        clip_paths.push(clip.clone());
+                let mut clip = g.clip_path.as_ref();
+                while let Some(c) = clip {
+                    if !clip_paths.iter().any(|other| Arc::ptr_eq(c, other)) {
+                        clip_paths.push(c.clone());
                     }
-
-                    if let Some(ref sub_clip) = clip.clip_path {
-                        if !clip_paths.iter().any(|other| Arc::ptr_eq(sub_clip, other)) {
-                            clip_paths.push(sub_clip.clone());
-                        }
-                    }
+                    clip = c.clip_path.as_ref();
                 }
             }
 
@@ -1753,16 +1745,12 @@ impl Group {
     pub(crate) fn collect_masks(&self, masks: &mut Vec<Arc<Mask>>) {
         for node in self.children() {
             if let Node::Group(ref g) = node {
-                if let Some(ref mask) = g.mask {
-                    if !masks.iter().any(|other| Arc::ptr_eq(mask, other)) {
-                        masks.push(mask.clone());
+                let mut mask = g.mask.as_ref();
+                while let Some(m) = mask {
+                    if !masks.iter().any(|other| Arc::ptr_eq(m, other)) {
+                        masks.push(m.clone());
                     }
-
-                    if let Some(ref sub_mask) = mask.mask {
-                        if !masks.iter().any(|other| Arc::ptr_eq(sub_mask, other)) {
-                            masks.push(sub_mask.clone());
-                        }
-                    }
+                    mask = m.mask.as_ref();
                 }
             }
 
